@@ -12,10 +12,10 @@ Lemma is_precert_class c :
   /\ (is_precertificate c = Some false <-> poison_class c = PAbsent)
   /\ (is_precertificate c = None <-> malformed_poison c).
 Proof.
-  unfold is_precertificate, poison_class, malformed_poison.
+  unfold malformed_poison, is_precertificate, poison_class.
   destruct (find is_poison (c_exts c)) as [e|].
   - destruct (e_critical e), (e_null e); simpl; (split; [|split]); split; intros H;
-      try discriminate; try reflexivity; try (destruct H; discriminate); auto. Show.
+      try discriminate; try reflexivity; try (destruct H; discriminate); auto.
   - (split; [|split]); split; intros H; try discriminate; try reflexivity. destruct H; discriminate.
 Qed.
 
@@ -76,7 +76,7 @@ Lemma malformed_poison_rejected_lemma o c0 rest pre p :
 Proof.
   intros Hwf Hm H. apply verify_add_chain_spec in H. destruct H as [Hv (leaf & r & -> & Hp)].
   rewrite (validate_der_eq o _ (c0 :: rest)) in Hv by (apply parse_all_some; reflexivity).
-  destruct (accepted_head _ _ _ Hwf Hv) as (c & rs & extra & [= <- <-] & [= <- _]).
+  destruct (accepted_head _ _ _ Hwf Hv) as (c & rs & extra & [= <- <-] & [= -> _]).
   apply (proj2 (proj2 (is_precert_class c0))) in Hm. congruence.
 Qed.
 
@@ -154,6 +154,25 @@ Section Fuel.
     s_oof (snd (build roots ints (S (length ints)) c0 [c0] st0)) = false.
   Proof.
     apply build_no_oof; [|reflexivity]. unfold avail.
-    pose proof (filter_length_le (fun p => negb (in_chain p [c0])) ints). lia.
+    assert (H : forall (g : cert -> bool) l, (length (filter g l) <= length l)%nat).
+    { intros g l. induction l as [|a l IH]; simpl; [lia|]. destruct (g a); simpl; lia. }
+    specialize (H (fun p => negb (in_chain p [c0])) ints). lia.
   Qed.
 End Fuel.
+
+Lemma validate_der_cases o ders :
+  (parse_all ders = None -> validate_der o ders = Rejected RParse)
+  /\ (forall raw, parse_all ders = Some raw -> validate_der o ders = validate o raw).
+Proof. split; [apply validate_der_parse|apply validate_der_eq]. Qed.
+
+Lemma filters_exact_lemma o c :
+  (f_only_ca o c = false <-> (o_only_ca o = true -> c_is_ca c = true))
+  /\ (f_expired o c = false <-> (o_reject_expired o = true -> (o_now o <= c_not_after c)%Z))
+  /\ (f_unexpired o c = false <-> (o_reject_unexpired o = true -> (c_not_after c < o_now o)%Z))
+  /\ (f_ext o c = false <-> (forall e, In e (c_exts c) -> ~ In (e_id e) (o_reject_ext o)))
+  /\ (f_eku o c = false <-> (o_ekus o <> [] -> exists k, In k (c_ekus c) /\ In k (o_ekus o)))
+  /\ (leaf_filters o c = None <-> filters_pass o c).
+Proof.
+  exact (conj (f_only_ca_false o c) (conj (f_expired_false o c) (conj (f_unexpired_false o c)
+        (conj (f_ext_false o c) (conj (f_eku_false o c) (leaf_filters_none o c)))))).
+Qed.
